@@ -79,7 +79,7 @@ def directed(rng, n):
 
 
 def gen(rng, tier):
-    n, ln = {"quick": (250, 35), "thorough": (6000, 60), "search": (3000, 45)}[tier]
+    n, ln = {"quick": (250, 35), "thorough": (12000, 60), "search": (3000, 45)}[tier]
     for i in range(n):
         ns = rng.choice([1, 2, 2, 2, 3, 3])
         ign = "".join(rng.choice("001") for _ in range(ns))
